@@ -168,13 +168,13 @@ func (c *Cmd) scripted(combined bool) ([]byte, error) {
 	}
 	inv := Invocation{Name: c.Path, Args: c.Args[1:], Stdin: c.stdin.String(), Combined: combined}
 	if x := vsched.Cur(); x != nil {
-		x.Point(vsched.OpExecStart, nil, 0)
+		x.Point(vsched.OpExecStart, vsched.ProcTable, 0)
 		x.ExecRunning++
 		if x.ExecRunning > x.ExecRunningMax {
 			x.ExecRunningMax = x.ExecRunning
 		}
 		x.Event("exec.start %s", c.Path)
-		x.Point(vsched.OpExecFinish, nil, 0)
+		x.Point(vsched.OpExecFinish, vsched.ProcTable, 0)
 		x.ExecRunning--
 		x.Event("exec.finish %s", c.Path)
 	}
